@@ -3,8 +3,10 @@ C12 — the kernel summary CSVs agree with the exported trace.
 
 Property theorems only; helper lemmas live in `Lemmas/Stats.lean`, the model in `Model/Stats.lean`.
 All statements are for arbitrary event streams / slice lists (any number of ranks, names, calls).
-The values are the exact ones; the 3- and 2-decimal printing of the files and the (irrational) StDev
-column are outside the model (see `harness/props/c12.py`).
+The values are the exact ones; the 3- and 2-decimal printing of the files is a tolerance of the
+correspondence; the (irrational) StDev column is covered through its square, the sample variance
+(`variance_spec`, `variance_sumsq`; the correspondence compares the printed StDev with the square root
+of the model's exact variance, see `harness/props/c12.py`).
 -/
 import AiuVerif.Lemmas.Stats
 import Mathlib.Tactic.Ring
@@ -152,14 +154,15 @@ theorem row_spec (sl : List Sl) (r : Row) (hr : r ∈ (outOf sl).rows) :
     r.median = median (dursWith sl (r.name, r.pid)) ∧
     r.min = minL (dursWith sl (r.name, r.pid)) ∧
     r.max = maxL (dursWith sl (r.name, r.pid)) ∧
-    r.share = r.total / (dursOfPid sl r.pid).sum * 100 := by
+    r.share = r.total / (dursOfPid sl r.pid).sum * 100 ∧
+    r.var = variance (dursWith sl (r.name, r.pid)) := by
   have hp := summaryRows_perm (collect sl)
   have hr' : r ∈ (collect sl).map (rowOf (collect sl)) := hp.mem_iff.mp hr
   obtain ⟨g, hg, rfl⟩ := List.mem_map.mp hr'
   obtain ⟨h1, h2⟩ := group_durs_spec sl g hg
   have hk : ((rowOf (collect sl) g).name, (rowOf (collect sl) g).pid) = g.key := rfl
   rw [hk, ← h1]
-  refine ⟨h2, rfl, rfl, rfl, rfl, rfl, rfl, ?_⟩
+  refine ⟨h2, rfl, rfl, rfl, rfl, rfl, rfl, ?_, rfl⟩
   simp [rowOf, mkRow, pidTotal_collect, dursOfPid]
 
 /-- **Each (masked name, pid) has exactly one row**: row keys are pairwise distinct and every kernel
@@ -193,6 +196,90 @@ theorem min_le_mean_le_max (l : List Rat) (h : l ≠ []) :
     rw [div_le_iff₀ hn]
     have := sum_le_of_forall_le l (maxL l) (le_maxL l)
     linarith
+
+/-! ### StDev² (the sample variance; `statistics.stdev` itself is irrational) -/
+
+theorem sum_sq_nonneg (l : List Rat) (m : Rat) : 0 ≤ (l.map (fun x => (x - m) * (x - m))).sum := by
+  induction l with
+  | nil => simp
+  | cons x xs ih =>
+    simp only [List.map_cons, List.sum_cons]
+    have := mul_self_nonneg (x - m)
+    linarith
+
+theorem sum_sq_eq_zero (l : List Rat) (m : Rat) (h : (l.map (fun x => (x - m) * (x - m))).sum = 0) :
+    ∀ x ∈ l, x = m := by
+  induction l with
+  | nil => simp
+  | cons y ys ih =>
+    simp only [List.map_cons, List.sum_cons] at h
+    have h1 := mul_self_nonneg (y - m)
+    have h2 := sum_sq_nonneg ys m
+    have hy : (y - m) * (y - m) = 0 := by linarith
+    have hys : (ys.map (fun x => (x - m) * (x - m))).sum = 0 := by linarith
+    intro x hx
+    rcases List.mem_cons.mp hx with rfl | hx
+    · have := mul_self_eq_zero.mp hy
+      linarith
+    · exact ih hys x hx
+
+/-- **StDev² of a single call is 0** (the code's `else: stdev = 0.0` branch), **never negative**, and
+**0 exactly when all calls of the kernel took the same time**. -/
+theorem variance_spec (l : List Rat) :
+    (l.length ≤ 1 → variance l = 0) ∧ 0 ≤ variance l ∧
+    (2 ≤ l.length → (variance l = 0 ↔ ∀ x ∈ l, x = mean l)) := by
+  refine ⟨fun h => by simp [variance, h], ?_, fun h2 => ?_⟩
+  · unfold variance
+    split
+    · exact le_refl 0
+    · rename_i hlen
+      have hn : (0 : Rat) < (l.length : Rat) - 1 := by
+        have : (2 : Rat) ≤ (l.length : Rat) := by exact_mod_cast (by omega : 2 ≤ l.length)
+        linarith
+      exact div_nonneg (sum_sq_nonneg l (mean l)) (le_of_lt hn)
+  · have hlen : ¬ l.length ≤ 1 := by omega
+    have hn : (0 : Rat) < (l.length : Rat) - 1 := by
+      have : (2 : Rat) ≤ (l.length : Rat) := by exact_mod_cast h2
+      linarith
+    simp only [variance, hlen, if_false]
+    constructor
+    · intro h
+      have : (l.map (fun x => (x - mean l) * (x - mean l))).sum = 0 := by
+        rcases div_eq_zero_iff.mp h with h | h
+        · exact h
+        · linarith
+      exact sum_sq_eq_zero l (mean l) this
+    · intro h
+      have : (l.map (fun x => (x - mean l) * (x - mean l))).sum = 0 := by
+        have : l.map (fun x => (x - mean l) * (x - mean l)) = l.map (fun _ => (0 : Rat)) := by
+          apply List.map_congr_left
+          intro x hx
+          rw [h x hx]; ring
+        rw [this]; simp
+      rw [this]; simp
+
+/-- **StDev² from the printed columns**: `(n − 1) · StDev² = Σ dᵢ² − Calls · Mean²` -/
+theorem variance_sumsq (l : List Rat) (h2 : 2 ≤ l.length) :
+    ((l.length : Rat) - 1) * variance l = (l.map (fun x => x * x)).sum - (l.length : Rat) * (mean l * mean l) := by
+  have hlen : ¬ l.length ≤ 1 := by omega
+  have hn : ((l.length : Rat) - 1) ≠ 0 := by
+    have : (2 : Rat) ≤ (l.length : Rat) := by exact_mod_cast h2
+    intro h; linarith
+  have hne : l ≠ [] := by intro h; simp [h] at h2
+  simp only [variance, hlen, if_false]
+  rw [mul_div_cancel₀ _ hn]
+  have hm := mean_mul_calls l hne
+  have key : ∀ (xs : List Rat) (m : Rat), (xs.map (fun x => (x - m) * (x - m))).sum
+      = (xs.map (fun x => x * x)).sum - 2 * m * xs.sum + (xs.length : Rat) * (m * m) := by
+    intro xs m
+    induction xs with
+    | nil => simp
+    | cons x xs ih =>
+      simp only [List.map_cons, List.sum_cons, List.length_cons, ih]
+      push_cast
+      ring
+  rw [key l (mean l), ← hm]
+  ring
 
 /-- **Median, characterised by counting**: at least half of the durations are ≤ the median and at least
 half are ≥ it. -/
